@@ -40,12 +40,9 @@ Section Rec.
 Variables d lo : N.
 Notation simu := (sim d lo Vu).
 
-Lemma sim_rr_address_with_prefix (a : addr) (prefix : N) :
-  simu (rr_address_with_prefix a prefix) (rr_address_with_prefix a prefix).
-Proof.
-  unfold sim, rr_address_with_prefix.
-  destruct (if a_fam a =? 1 then _ else _) as [b|e|x|]; repeat sim_step.
-Qed.
+Lemma sim_rr_address_with_length (a : addr) (minimum : N) :
+  simu (rr_address_with_length a minimum) (rr_address_with_length a minimum).
+Proof. unfold sim, rr_address_with_length. repeat sim_step. Qed.
 
 Lemma sim_write_field (k : fk) (v : option fv) : simu (write_field k v) (write_field k v).
 Proof.
@@ -61,14 +58,14 @@ Qed.
 
 Lemma sim_enc_edns_option (o : ednsopt) : simu (enc_edns_option o) (enc_edns_option o).
 Proof.
-  pose proof sim_rr_address_with_prefix as HA.
+  pose proof sim_rr_address_with_length as HA.
   unfold sim, enc_edns_option, enc_ecs, enc_cookie, enc_padding.
   destruct o; repeat sim_step; apply simL_weaken; apply HA.
 Qed.
 
 Lemma sim_enc_apitem (i : apitem) : simu (enc_apitem i) (enc_apitem i).
 Proof.
-  pose proof sim_rr_address_with_prefix as HA.
+  pose proof sim_rr_address_with_length as HA.
   unfold sim, enc_apitem. repeat sim_step; apply simL_weaken; apply HA.
 Qed.
 
